@@ -115,8 +115,12 @@ func (rl *TokenBucketRateLimiter) cleanup() {
 		ip := key.(string)
 		b := value.(*bucket)
 
+		// Dropping a bucket hands the client a fresh, full bucket on its next request. That is
+		// only invisible if the bucket would have refilled completely by now anyway; otherwise
+		// an exhausted client would get a whole new burst long before it is entitled to one.
 		b.mutex.Lock()
-		shouldDelete := b.lastRefill.Before(cutoff)
+		fullyRefilled := now.Sub(b.lastRefill) >= time.Duration(rl.maxTokens)*rl.refillRate
+		shouldDelete := b.lastRefill.Before(cutoff) && fullyRefilled
 		b.mutex.Unlock()
 
 		if shouldDelete {
